@@ -19,6 +19,8 @@ pub struct Binder {
     pub fold_case: bool,
     /// relations that exist only in the program text (`let` names): the statement must define them itself
     pub program_relations: Vec<String>,
+    /// column lists of base tables, when the caller knows the schema (empty: base tables are open)
+    pub base_tables: Vec<(String, Vec<String>)>,
 }
 
 fn ident_value(v: &J) -> Option<String> {
@@ -30,6 +32,32 @@ fn object_name(parts: &J) -> Vec<String> {
         .as_array()
         .map(|a| a.iter().filter_map(|p| p.get("Identifier").and_then(ident_value)).collect())
         .unwrap_or_default()
+}
+
+/// names listed in `* EXCLUDE (…)` / `* EXCEPT (…)`
+fn excluded_names(wopts: &J) -> Vec<String> {
+    let mut out = vec![];
+    for key in ["opt_exclude", "opt_except"] {
+        let o = &wopts[key];
+        if o.is_null() {
+            continue;
+        }
+        fn walk(v: &J, out: &mut Vec<String>) {
+            match v {
+                J::Object(m) => {
+                    if let (Some(val), true) = (m.get("value").and_then(|x| x.as_str()), m.contains_key("quote_style")) {
+                        out.push(val.to_string());
+                    } else {
+                        m.values().for_each(|x| walk(x, out));
+                    }
+                }
+                J::Array(a) => a.iter().for_each(|x| walk(x, out)),
+                _ => {}
+            }
+        }
+        walk(o, &mut out);
+    }
+    out
 }
 
 fn generated_relation_name(n: &str) -> bool {
@@ -149,6 +177,11 @@ impl Binder {
                     found = true;
                 }
             }
+            if !found && parts.len() == 1 {
+                if let Some((_, c)) = self.base_tables.iter().find(|(n, _)| n == &tname) {
+                    cols = Some(c.clone());
+                }
+            }
             if !found && parts.len() == 1 && self.program_relations.iter().any(|n| n == &tname) {
                 self.err("program-relation-not-defined-in-statement", format!("FROM {tname}: `{tname}` is a `let` of the program, and no CTE of that name is in scope here"));
             }
@@ -242,14 +275,15 @@ impl Binder {
                 if let (Some(a), Some(o)) = (ident_value(&e["alias"]), &mut out) {
                     o.push(a);
                 }
-            } else if it.get("Wildcard").is_some() {
+            } else if let Some(wopts) = it.get("Wildcard") {
                 if rels.is_empty() {
                     self.err("wildcard-without-from", "SELECT * without FROM".into());
                 }
+                let excl = excluded_names(wopts);
                 if rels.iter().all(|r| r.cols.is_some()) && !rels.is_empty() {
                     if let Some(o) = &mut out {
                         for r in &rels {
-                            o.extend(r.cols.clone().unwrap());
+                            o.extend(r.cols.clone().unwrap().into_iter().filter(|c| !excl.iter().any(|e| e.eq_ignore_ascii_case(c))));
                         }
                     }
                 } else {
@@ -263,7 +297,10 @@ impl Binder {
                         out = None;
                     }
                     Some(r) => match (&r.cols, &mut out) {
-                        (Some(c), Some(o)) => o.extend(c.clone()),
+                        (Some(c), Some(o)) => {
+                            let excl = qw.as_array().and_then(|a| a.get(1)).map(excluded_names).unwrap_or_default();
+                            o.extend(c.iter().filter(|c| !excl.iter().any(|e| e.eq_ignore_ascii_case(c))).cloned())
+                        }
                         _ => out = None,
                     },
                 }
@@ -387,6 +424,19 @@ pub fn let_relations(src: &str) -> Vec<String> {
         }
     }
     out
+}
+
+/// Column names the statement returns, given the column lists of the base tables; None when they cannot be
+/// derived (unparseable text, an open relation without schema, a construct the binder does not model).
+pub fn output_columns(sql: &str, d: prqlc::sql::Dialect, schema: &[(&str, &[&str])]) -> Option<Vec<String>> {
+    let dial = sqlparser_dialect(d);
+    let stmts = sqlparser::parser::Parser::parse_sql(&*dial, sql).ok()?;
+    if stmts.len() != 1 {
+        return None;
+    }
+    let v = serde_json::to_value(&stmts[0]).ok()?;
+    let mut b = Binder { fold_case: true, base_tables: schema.iter().map(|(n, c)| (n.to_string(), c.iter().map(|x| x.to_string()).collect())).collect(), ..Default::default() };
+    b.query(v.get("Query")?, &[])
 }
 
 pub fn check_sql_with(sql: &str, d: prqlc::sql::Dialect, lets: &[String]) -> Vec<(String, String)> {
